@@ -969,6 +969,15 @@ func (e *Eng) finish(fr *Frame) {
 	if e.isPkgInit() {
 		e.pkgInvObligations(st)
 	}
+	// Channel balance: every send on a channel made here (by this function or by the goroutines it started,
+	// as promised by their contracts) is matched by buffer space or by a receive on every path to the
+	// return; otherwise a sender stays blocked for ever.
+	for _, lc := range e.localChans {
+		sends := tSel(e.heapTerm(st, "G|chansends", arrSort(sRef, sI64)), lc.ref)
+		recv := tSel(e.heapTerm(st, "G|chanrecv", arrSort(sRef, sI64)), lc.ref)
+		capT := tSel(e.heapTerm(st, "G|chancap", arrSort(sRef, sI64)), lc.ref)
+		e.oblige(st, "chan_balance", "", e.allProps(), app("bvsle", sends, app("bvadd", capT, recv)), lc.in, "sends on the channel made here do not exceed its capacity plus the receives performed before returning")
+	}
 	e.cover(st, "exit", e.coverProps(), nil, "some return is reachable under the assumed callee contracts and invariants")
 }
 
